@@ -820,8 +820,10 @@ def gen_case(rng, tier="quick", boundary=False):
             pairs.append(["probability", {"f": p} if p != [1, 1] or rng.chance(0.5) else 1])
         for k in extras:
             pairs.append([k, gen_any(rng)])
-        if not pairs:
-            pairs.append(["context", None])       # an interaction without any field is degenerate (nothing to feed or record)
+        if not any(k in ("context", "actions", "action") for k, _ in pairs):
+            # degenerate: nothing a learner could be fed.  (`_results` also decides "batched" from these three keys only,
+            # so a batched environment of bare rewards/extras is treated as unbatched; noted, not generated.)
+            pairs.insert(0, ["context", None])
         if order_shuffle:
             pairs = rng.shuffle(pairs) if i == 0 else [[k, idict(pairs)[k]] for k, _ in inters[0]]
         inters.append(pairs)
